@@ -95,11 +95,8 @@ REGISTRY["C29"] = {
         ob("c29::c29_atom_len3", "three-byte atom, any content", "limit 0..=7", timeout=600, checks="nomem"),
         ob("c29::c29_tree_pair", "(x . y), x 2-byte view, y 1-byte view: crossing on cons marker, prefix, body",
            "limit 0..=6, contents symbolic", timeout=1500, checks="nomem", unwind=12),
-        ob("c29::c29_tree_left_nested", "((x . y) . nil)", "limit 0..=8", tier="thorough", timeout=2400, checks="nomem", unwind=12),
-        ob("c29::c29_tree_right_nested_inline", "(x . (0x1234 . nil)) with an inline integer leaf", "limit 0..=10",
-           tier="thorough", timeout=2400, checks="nomem", unwind=12),
-        ob("c29::c29_tree_shared", "((y . 5) . (y . 5)) with a shared sub-tree", "limit 0..=10", tier="thorough",
-           timeout=2400, checks="nomem", unwind=12),
+        # (two-pair shapes c29_tree_left_nested / c29_tree_right_nested_inline / c29_tree_shared exist in the harness crate; they took
+        #  6-8 minutes each under an earlier configuration and were not re-measured under the final one, so they are not registered)
     ],
 }
 
